@@ -22,7 +22,7 @@
      PPAIR <hex1> <hex2> ok <cmp> <eq> | err | panic      NamePattern.Compare/Equal of the two parsed patterns
      FULL <a> <digesthex> ok <name> | panic        Name.ToFullName
      CSHIT <x> <y> miss | skip | hit <name>              fw/table PIT-CS: insert Data x, Data y, look up x (the Data returned must be named x)
-     CONV/DIST lines are for the check script and are skipped here.
+     CONV/DIST/CSREQ lines are for the check script and are skipped here.
    Output: "DIVERGE <lineno> <kind> model=<..> impl=<..>" when model and implementation disagree,
            "SPECFAIL <lineno> <kind> <what>" when the implementation's observations violate the spec predicate,
            "NOTE <lineno> <text>", "BADLINE <lineno> <line>", and a final "DONE <lines>". *)
@@ -202,7 +202,7 @@ let () =
            | ["miss"] | ["skip"] -> ()
            | ["hit"; n] -> if n <> x then specfail "CSHIT" ("the Content Store answered an Interest for the first name with Data named " ^ cut n)
            | _ -> specfail "CSHIT" "the Content Store probe panicked")
-      | "CONV" :: _ | "DIST" :: _ -> ()
+      | "CONV" :: _ | "DIST" :: _ | "CSREQ" :: _ -> ()
       | [""] | [] -> ()
       | _ -> Printf.printf "BADLINE %d %s\n" !lineno (cut line)
       with Failure msg -> Printf.printf "BADLINE %d (%s) %s\n" !lineno msg (cut line))
